@@ -426,6 +426,8 @@ def c12(ctx):
     roots = [b for b in all_roots(prog) if "histogram::strategies" in b.key or "GridBuilder" in b.key]
     RL.rule_r8(ctx, prog, roots)
     RH.rule_gridbuilder(ctx, prog)
+    from . import rules_divisor as RD
+    RD.rule_divisors(ctx, prog)
     return dict(
         level="other",
         explanation="(R17) in EquiSpaced the edge whose comparison with max ends the counting in n_bins() and the edge pushed by build() are "
@@ -433,7 +435,9 @@ def c12(ctx):
                     "floating-point element types: two different rounding sequences disagree for some data), build() iterates 0..=n_bins(), "
                     "edge(0) = min and edge(i+1) − edge(i) = bin_width (CAS); (R11) every EquiSpaced is built by EquiSpaced::new under the "
                     "dominating guard width > 0 ∧ min < max, struct private; (R13) the four strategies pass a.min()/a.max() in that order and "
-                    "delegate build/n_bins to the shared builder, Auto dispatches per variant; (R6) empty ⇒ EmptyInput, guard ⇒ Strategy. "
+                    "delegate build/n_bins to the shared builder, Auto dispatches per variant; (R6) empty ⇒ EmptyInput, guard ⇒ Strategy; "
+                    "(R33) every generic division of the constructors has a divisor whose interval, as a monotone function of len(a) ≥ 1, "
+                    "stays ≥ 1 (no division-by-zero panic for integer elements where Err(Strategy) is promised). "
                     "Not decided: covering of the maximum for floats beyond formula agreement, termination for floats.",
     )
 
